@@ -13,6 +13,7 @@ RULE = ('case = (strategy, MIN_TIMESTAMP_LAG, bounded/unbounded cache, store/dra
         'execution with >=2 metrics drained and >=1 thread switch; distinct = distinct interleavings per history')
 RULE_MORE = (" Also: the shutdown hook zeroing the lag, series named '', queues of 1000+ datapoints, timestamps outside any calendar, cache queries for absent series, and the C02 conservation oracle.")
 RULE_MORE = RULE_MORE + ' Round 11: configurations under flow control (the cache-full flag is raised and cleared while the strategies work, with and without a lag).'
+RULE_MORE = RULE_MORE + " Round 12: the daemon's start-up scenario (C02) per strategy."
 RULE = RULE + RULE_MORE
 EXHAUSTIVE = {'quick': False, 'thorough': False}
 EXHAUSTIVE_OVER = 'all schedules with <=1 preemption of every generated history (<=2 for short histories in thorough)'
